@@ -4,6 +4,7 @@ let rec int_of_pos p = match p with XH -> 1 | XO q -> 2 * int_of_pos q | XI q ->
 let iz = function Z0 -> 0 | Zpos p -> int_of_pos p | Zneg p -> - (int_of_pos p)
 let ztab = Array.init 256 z_of_int
 let zi i = if i >= 0 && i < 256 then ztab.(i) else z_of_int i
+let zi_big i = z_of_int i
 let zl l = List.map zi l
 let il l = List.map iz l
 let junk = fun _ -> zi 0xCD
@@ -85,7 +86,9 @@ let run_sink toks =
           let (rc, dv) = sink_destroy !s (String.contains fl 'F') (String.contains fl 'C') in
           final := (match dv with
               | DBuf a -> if a.a_view then dz a.a_cnt ^ ":" ^ dump (il a.a_mem)
-                else dz a.a_cnt ^ ":" ^ dump (il (sink_content !s))
+                else (let keep = if append then List.length old else 0 in
+                      let show = min (List.length a.a_mem) (max (iz !s.k_bb) keep) in
+                      dz a.a_cnt ^ ":" ^ dump (il (take (zi_big show) a.a_mem)))
               | DFile (_, f) -> dump (il f));
           dz rc
         | _ -> "UNKNOWN_OP" in
